@@ -497,6 +497,8 @@ class DatasetProcessor:
         if self.args.read_assignments:
             saves_file = self.args.read_assignments[0]
             logger.info('Using read assignments from {}*'.format(saves_file))
+            # alignments are not collected again: the number of unaligned reads comes from the saved info
+            self.alignment_stat_counter.add(AlignmentType.unaligned, self.load_unaligned_read_count(saves_file))
         else:
             self.collect_reads(sample)
             saves_file = sample.out_raw_file
@@ -612,6 +614,7 @@ class DatasetProcessor:
         write_int(total_assignments, info_dumper)
         write_int(polya_assignments, info_dumper)
         write_list(list(all_read_groups), info_dumper, write_string)
+        write_int(self.alignment_stat_counter.stats_dict[AlignmentType.unaligned], info_dumper)
         info_dumper.close()
         open(lock_file, "w").close()
 
@@ -759,6 +762,16 @@ class DatasetProcessor:
         all_read_groups = set(read_list(info_loader, read_string))
         info_loader.close()
         return total_assignments, polya_assignments, all_read_groups
+
+    def load_unaligned_read_count(self, dump_filename):
+        # stored after the read groups; absent in files saved by earlier versions (read_int gives 0 at EOF)
+        info_loader = open(dump_filename + "_info", "rb")
+        read_int(info_loader)
+        read_int(info_loader)
+        read_list(info_loader, read_string)
+        unaligned_reads = read_int(info_loader)
+        info_loader.close()
+        return unaligned_reads
 
     def merge_assignments(self, sample, aggregator, chr_ids):
         if self.args.genedb:
